@@ -373,8 +373,136 @@ func (g *progGen) operand() string {
 	}
 }
 
+// canonical draws one statement uniformly from the matrix of ordinary x86 forms of the mnemonics
+// gosk has handlers for: every accumulator/port form of IN and OUT, every operand-size and
+// register/memory/immediate combination of the arithmetic, unary, shift, stack and move
+// instructions. The special-cased generators below favour what the book programs use; this one
+// makes sure that no legitimate form is unreachable.
+func (g *progGen) canonical() string {
+	r := g.r
+	reg := func(bits int) string {
+		switch bits {
+		case 8:
+			return pick(r, regs8)
+		case 16:
+			return pick(r, regs16)
+		}
+		return pick(r, regs32)
+	}
+	size := func(bits int) string {
+		return map[int]string{8: "BYTE", 16: "WORD", 32: "DWORD"}[bits]
+	}
+	acc := map[int]string{8: "AL", 16: "AX", 32: "EAX"}
+	bits := pick(r, []int{8, 16, 32})
+	small := func() string { return pick(r, []string{"0x60", "0x21", "0xa0", "0x64", "1", "0x92", "0xff", "0"}) }
+	switch r.Intn(14) {
+	case 0: // IN acc, DX | imm8
+		return "\tIN\t" + acc[bits] + "," + pick(r, []string{"DX", small()})
+	case 1: // OUT DX | imm8, acc
+		return "\tOUT\t" + pick(r, []string{"DX", small()}) + "," + acc[bits]
+	case 2: // arithmetic: r,r  r,imm  r,mem  mem,r  sized mem,imm  acc,imm
+		mn := pick(r, append(append([]string{}, arith...), "TEST", "MOV"))
+		switch r.Intn(6) {
+		case 0:
+			return "\t" + mn + "\t" + reg(bits) + "," + reg(bits)
+		case 1:
+			return "\t" + mn + "\t" + reg(bits) + "," + g.imm(bits)
+		case 2:
+			return "\t" + mn + "\t" + reg(bits) + "," + g.mem()
+		case 3:
+			return "\t" + mn + "\t" + g.mem() + "," + reg(bits)
+		case 4:
+			return "\t" + mn + "\t" + size(bits) + " " + g.mem() + "," + g.imm(bits)
+		default:
+			return "\t" + mn + "\t" + acc[bits] + "," + g.imm(bits)
+		}
+	case 3: // unary and multiply/divide on register or sized memory
+		mn := pick(r, append(append([]string{}, unary...), "MUL", "IMUL", "DIV", "IDIV"))
+		if r.Chance(1, 2) {
+			return "\t" + mn + "\t" + reg(bits)
+		}
+		return "\t" + mn + "\t" + size(bits) + " " + g.mem()
+	case 4: // shifts by 1, CL, imm8
+		cnt := pick(r, []string{"1", "CL", fmt.Sprint(r.Range(2, 31))})
+		if r.Chance(2, 3) {
+			return "\t" + pick(r, shifts) + "\t" + reg(bits) + "," + cnt
+		}
+		return "\t" + pick(r, shifts) + "\t" + size(bits) + " " + g.mem() + "," + cnt
+	case 5: // PUSH
+		switch r.Intn(5) {
+		case 0:
+			return "\tPUSH\t" + reg(pick(r, []int{16, 32}))
+		case 1:
+			return "\tPUSH\t" + pick(r, []string{"ES", "CS", "SS", "DS", "FS", "GS"})
+		case 2:
+			return "\tPUSH\t" + g.imm(pick(r, []int{8, 16, 32}))
+		case 3:
+			return "\tPUSH\t" + size(pick(r, []int{16, 32})) + " " + g.mem()
+		default:
+			return "\tPUSH\t" + g.target()
+		}
+	case 6: // POP
+		switch r.Intn(3) {
+		case 0:
+			return "\tPOP\t" + reg(pick(r, []int{16, 32}))
+		case 1:
+			return "\tPOP\t" + pick(r, []string{"ES", "SS", "DS", "FS", "GS"})
+		default:
+			return "\tPOP\t" + size(pick(r, []int{16, 32})) + " " + g.mem()
+		}
+	case 7: // MOV with segment and control registers, accumulator <-> absolute address
+		switch r.Intn(6) {
+		case 0:
+			return "\tMOV\t" + pick(r, sregs) + "," + pick(r, regs16)
+		case 1:
+			return "\tMOV\t" + pick(r, regs16) + "," + pick(r, append([]string{"CS"}, sregs...))
+		case 2:
+			return "\tMOV\t" + pick(r, []string{"CR0", "CR2", "CR3", "CR4"}) + "," + pick(r, regs32)
+		case 3:
+			return "\tMOV\t" + pick(r, regs32) + "," + pick(r, []string{"CR0", "CR2", "CR3", "CR4"})
+		case 4:
+			return "\tMOV\t" + acc[bits] + ",[" + g.addr() + "]"
+		default:
+			return "\tMOV\t[" + g.addr() + "]," + acc[bits]
+		}
+	case 8: // XCHG / LEA
+		if r.Chance(1, 2) {
+			return "\tXCHG\t" + reg(bits) + "," + reg(bits)
+		}
+		return "\tLEA\t" + reg(pick(r, []int{16, 32})) + "," + g.mem()
+	case 9: // IMUL two and three operands
+		b := pick(r, []int{16, 32})
+		if r.Chance(1, 2) {
+			return "\tIMUL\t" + reg(b) + "," + g.imm(pick(r, []int{8, b}))
+		}
+		return "\tIMUL\t" + reg(b) + "," + reg(b) + "," + g.imm(pick(r, []int{8, b}))
+	case 10: // RET / RET imm16 / RETF
+		return pick(r, []string{"\tRET", "\tRET\t" + fmt.Sprint(r.Range(0, 64)*2), "\tRETF", "\tRETF\t4"})
+	case 11: // CALL / JMP through register or memory
+		mn := pick(r, []string{"CALL", "JMP"})
+		switch r.Intn(3) {
+		case 0:
+			return "\t" + mn + "\t" + reg(pick(r, []int{16, 32}))
+		case 1:
+			return "\t" + mn + "\t" + size(pick(r, []int{16, 32})) + " " + g.mem()
+		default:
+			if r.Chance(1, 12) { // (a distance keyword in front of a name does not parse in gosk's grammar today)
+				return "\t" + mn + "\t" + pick(r, []string{"SHORT ", "NEAR ", "DWORD "}) + g.target()
+			}
+			return "\t" + mn + "\t" + g.target()
+		}
+	case 12: // LGDT / LIDT
+		return "\t" + pick(r, []string{"LGDT", "LIDT"}) + "\t[" + g.addr() + "]"
+	default: // conditional jumps of every kind
+		return "\t" + pick(r, jccs) + "\t" + g.target()
+	}
+}
+
 func (g *progGen) stmt() string {
 	r := g.r
+	if r.Chance(1, 7) {
+		return g.canonical()
+	}
 	if r.Chance(1, 9) { // generic cross product: handled mnemonic x 0..3 operands of any shape
 		n := r.weighted([]int{1, 4, 8, 1})
 		ops := make([]string, n)
@@ -506,7 +634,7 @@ func (g *progGen) stmt() string {
 		switch r.Intn(6) {
 		case 0:
 			if !g.r.Chance(1, 12) { // (gosk panics on INT with a decimal operand above 127: mostly the forms real programs use)
-				return "\tINT\t" + pick(g.r, []string{"0x10", "0x13", "0x15", "0x16", "0x21", "0x80", "3", "0x1a", fmt.Sprint(g.r.Intn(128))})
+				return "\tINT\t" + pick(g.r, []string{"0x10", "0x13", "0x15", "0x16", "0x21", "0x7f", "3", "0x1a", fmt.Sprint(g.r.Intn(128))})
 			}
 			return "\tINT\t" + g.imm(8)
 		case 1:
@@ -710,19 +838,41 @@ func genBody(r *RNG, o genOpts) (body []string, hasEqu, hasGlobal bool) {
 		equNames = append(equNames, n)
 	}
 	var lateEqus []string // EQU lines placed after the statements that use them
+	// every EQU refers to at most one other; a reference that would close a circle is replaced by a
+	// number (gosk overflows its stack on circular definitions: such a program tests nothing)
+	refOf := map[int]int{}
+	other := func(i int) (string, bool) {
+		j := r.Intn(len(equNames))
+		for k, hops := j, 0; hops <= len(equNames); hops++ {
+			if k == i {
+				return "", false
+			}
+			nk, ok := refOf[k]
+			if !ok {
+				break
+			}
+			k = nk
+		}
+		refOf[i] = j
+		return equNames[j], true
+	}
 	for i, n := range equNames {
 		var val string
 		switch {
 		case i > 0 && r.Chance(1, 3): // chain over an earlier name
-			val = equNames[r.Intn(i)] + "+" + fmt.Sprint(r.Range(1, 64))
+			j := r.Intn(i)
+			refOf[i] = j
+			val = equNames[j] + "+" + fmt.Sprint(r.Range(1, 64))
 		case r.Chance(1, 4): // expression over any name, including names defined further down
-			val = pick(r, equNames) + pick(r, []string{"+", "-"}) + fmt.Sprint(r.Range(1, 9)) + pick(r, []string{"+", "-", "*"}) + fmt.Sprint(r.Range(1, 9))
-			if strings.HasPrefix(val, n+"+") || strings.HasPrefix(val, n+"-") {
-				val = fmt.Sprintf("0x%04x", r.Intn(0x10000)) // no self reference
+			if o, ok := other(i); ok {
+				val = o + pick(r, []string{"+", "-"}) + fmt.Sprint(r.Range(1, 9)) + pick(r, []string{"+", "-", "*"}) + fmt.Sprint(r.Range(1, 9))
+			} else {
+				val = fmt.Sprintf("0x%04x", r.Intn(0x10000))
 			}
 		case r.Chance(1, 6) && len(equNames) > 1: // a bare alias of another EQU name, defined before or after this line
-			val = pick(r, equNames)
-			if val == n {
+			if o, ok := other(i); ok {
+				val = o
+			} else {
 				val = fmt.Sprintf("0x%04x", r.Intn(0x10000))
 			}
 		case r.Chance(1, 5):
